@@ -126,6 +126,10 @@ def _work(job):
 
 def run(chk: Check, owner: str) -> int:
     explore(chk, owner)
+    if owner == "C09":
+        # the helpers that take or return prices / values / amounts and are not operations of UniLp.tla: UniMirror.tla
+        from . import uni_mirror
+        uni_mirror.run_leg(chk)
     return chk.finish("a case = one behaviour of MC_UniLp (BFS spanning-tree path or simulated behaviour) executed through the real "
                       "Actuator + UniLpMarket in both token orientations; non-trivial = contains an accepted operation or a bar end")
 
@@ -200,6 +204,10 @@ def replay(chk: Check, path: str, owner: str) -> int:
     if rep.get("kind") == "tlc":
         print(rep.get("output_tail", ""))
         return chk.finish("TLC output of a spec-level violation")
+    if rep.get("kind") == "uni_mirror":
+        from . import uni_mirror
+        uni_mirror.replay_one(chk, rep)
+        return chk.finish("replay of one helper case on both orientations")
     d = unpack(rep["packed"])
     _G["universe"] = d["universe"]
     _G.pop("pa", None), _G.pop("pb", None)
